@@ -247,6 +247,8 @@ class _TokenMatchingCallsite:
             for f_ in post.pc:
                 if not any(f_ is g for g in s.pc):
                     s.pc.append(f_)
+            if '__mfacts__' in post.ghost:
+                s.ghost['__mfacts__'] = post.ghost['__mfacts__']
             if res[0] is not None:
                 fs = funcs if isinstance(funcs, (tuple, list)) else (funcs,)
                 if len(fs) == 1 and not isinstance(fs[0], Opaque):
@@ -325,3 +327,70 @@ def _pick_child(ex, st):
     r = ex.elem_at(st, lst, k)
     assert len(r) == 1
     return r[0][1]
+
+
+# thin wrappers around _token_matching: executed in place at call sites (their bodies are part of the caller's
+# verified text); _token_matching itself is always used through its contract
+REG.inline_ok |= {'sqlparse.sql.TokenList.token_next', 'sqlparse.sql.TokenList.token_prev',
+                  'sqlparse.sql.TokenList.token_first', 'sqlparse.sql.TokenList.token_next_by',
+                  'sqlparse.sql.TokenList.token_matching'}
+
+
+def _token_index_result(ex, st, env):
+    me, tok = env['self'], env['token']
+    lst = ex.getattr(me, 'tokens', st)
+    r = ex.list_method_ext(lst, 'index', [tok], {}, st)
+    return r
+
+
+token_index_c.make_result = staticmethod(_token_index_result)
+
+
+# --------------------------------------------------------------------------------- Token.__init__ (leaf invariant)
+
+@contract('sqlparse.sql.Token.__init__', case='body')
+class token_init_body:
+    """leaf part of Inv: flags follow the type; `normalized` is the upper-cased value with inner whitespace collapsed
+    for keywords (what get_type() and every M_CLOSE comparison rely on), the value itself otherwise"""
+    exec_class = HeapExec
+    params = {'self': lambda ex, st: ex.new_obj(st, 'Token', {'CLS': ex.W.cls_const[ex.W.sql.Token], 'TXT': None}),
+              'ttype': 'tt', 'value': 'str'}
+    requires = ['ttype is not None']
+    ensures = ['self.value == value', 'self.ttype == ttype', 'self.parent is None', 'self.is_group == False',
+               'self.is_keyword == (ttype in T.Keyword)', 'self.is_whitespace == (ttype in T.Whitespace)',
+               'self.is_newline == (ttype in T.Newline)',
+               "self.normalized == (' '.join(value.upper().split()) if ttype in T.Keyword else value)"]
+    raises = []
+    serves = ['C03', 'C11', 'C18']
+
+
+# --------------------------------------------------------------------------------- Statement.get_type (C18)
+
+def make_statement(ex, st):
+    g = make_group(ex, st, 'self')
+    st.assume(st.objs[g.oid]['CLS'] == ex.W.cls_const[ex.W.sql.Statement])
+    return g
+
+
+FIRST = ("self.token_first(skip_cm=True)")
+
+
+@contract('sqlparse.sql.Statement.get_type')
+class get_type_c:
+    """get_type() looks only at the first child that is neither whitespace nor a comment: DML/DDL -> its normalized
+    text; CTE -> the normalized text of a DML keyword that directly follows an Identifier/IdentifierList after it,
+    else UNKNOWN; anything else (or nothing) -> UNKNOWN.  It raises nothing."""
+    exec_class = HeapExec
+    params = {'self': make_statement}
+    requires = []
+    loops = {'0': {'inv': ['tidx is None or (0 <= tidx and tidx < len(self.tokens))']}}
+    ghost = {}
+    ensures = [
+        "result == 'UNKNOWN' if %s is None else True" % FIRST,
+        "result == %s.normalized if (%s is not None and %s.ttype in (T.Keyword.DML, T.Keyword.DDL)) else True"
+        % (FIRST, FIRST, FIRST),
+        "result == 'UNKNOWN' if (%s is not None and %s.ttype not in (T.Keyword.DML, T.Keyword.DDL, T.Keyword.CTE)) "
+        "else True" % (FIRST, FIRST),
+    ]
+    raises = []
+    serves = ['C18', 'C07']
